@@ -80,6 +80,11 @@ Restart == /\ cur' = "" /\ unsaved' = {} /\ res' = R("restart", {}) /\ UNCHANGED
 \* records fsynced, so recovery of every database restores exactly the promise
 CrashRestart == /\ cur' = "" /\ unsaved' = {} /\ res' = R("crash", {}) /\ UNCHANGED <<dbs, content>>
 
+\* CREATE TABLE of a table other than t in the selected database ("filler" steps of the replayed paths): nothing this
+\* module talks about changes, except that the database has something unsaved - the step the specification takes is
+\* (almost) a stuttering step, so every promise of a path stands when such steps are put into it
+OtherTable == /\ cur # "" /\ unsaved' = unsaved \cup {cur} /\ UNCHANGED <<dbs, cur, content, res, ticked>>
+
 SessNext == \/ Tick
             \/ /\ ticked' = FALSE
                /\ \/ \E n \in Names : CreateDb(n) \/ Use(n)
